@@ -165,3 +165,15 @@ fn add_subblock_map(H_I: &mut Vec<usize>, clique_vertices: &[usize], row_start: 
         }
     }
 }
+
+// ---------------------------------------------------------------------------
+// verification hooks (add-only, off unless feature `verif-hooks` is enabled)
+#[cfg(feature = "verif-hooks")]
+impl<T> ChordalInfo<T>
+where
+    T: FloatT,
+{
+    pub(crate) fn vh_find_standard_H_and_cones(&mut self) -> (CscMatrix<T>, Vec<SupportedConeT<T>>) {
+        self.find_standard_H_and_cones()
+    }
+}
